@@ -443,7 +443,7 @@ def run(ctx):
             disagreements.append({"case": metas[k], "model": C.coq_show(PROP, EV_PREAMBLE, "run_events", cases[k][0])[-300:]})
         disagreements.extend({"case": metas[k]} for k in failing[5:30])
     descs = []
-    for i in range(ctx.scale(250, 5000, 1500)):
+    for i in range(ctx.scale(900, 5000, 1500)):
         d, f = session_case(ctx.seed * 86028121 + i)
         descs.append(d)
         oracle_failures.extend(f)
